@@ -5,6 +5,6 @@ S=$1; P=$2; T=${3:-quick}; WT=/tmp/seedrun-$S-$$
 git -C /repo worktree add -q --detach $WT HEAD || exit 2
 git -C $WT apply /verif/seeded/$S/patch.diff 2>/dev/null || git -C $WT apply --3way /verif/seeded/$S/patch.diff || { git -C /repo worktree remove --force $WT; echo "patch does not apply"; exit 2; }
 cd /verif && VERIF_REPO=$WT ./check $P --tier $T > /tmp/seedrun-$S-$P.log 2>&1; RC=$?
-git -C /repo worktree remove --force $WT
+git -C /repo worktree remove --force $WT; rm -rf $WT.verif-out
 echo "seed=$S check=$P tier=$T exit=$RC $(grep -m1 'signature' /tmp/seedrun-$S-$P.log)"
 exit $RC
